@@ -38,8 +38,11 @@ def snapshot(root):
     SNAP[0] = snap
 
 
+KIND = ["seeded"]
+
+
 def run_seed(name, root):
-    sd = os.path.join(V, "seeded", name)
+    sd = os.path.join(V, KIND[0], name)
     work = os.path.join(root, "sr_" + name)
     shutil.rmtree(work, ignore_errors=True)
     os.makedirs(work)
@@ -79,9 +82,12 @@ def main():
     ap = argparse.ArgumentParser()
     ap.add_argument("-j", type=int, default=4)
     ap.add_argument("--root", default="/tmp/verif_seedruns")
+    ap.add_argument("--dir", default="seeded", help="seeded (property-breaking changes) or benign (behaviour-preserving ones)")
     ap.add_argument("seeds", nargs="*")
     a = ap.parse_args()
-    seeds = a.seeds or sorted(os.listdir(os.path.join(V, "seeded")))
+    KIND[0] = a.dir
+    a.root = a.root + "_" + a.dir
+    seeds = a.seeds or sorted(os.listdir(os.path.join(V, a.dir)))
     os.makedirs(a.root, exist_ok=True)
     snapshot(a.root)
     with ThreadPoolExecutor(max_workers=a.j) as ex:
@@ -90,7 +96,7 @@ def main():
             if "error" in res:
                 print("SEED %s ERROR %s" % (name, res["error"]))
                 continue
-            json.dump(res, open(os.path.join(V, "seeded", name, "last_run.json"), "w"), indent=1)
+            json.dump(res, open(os.path.join(V, KIND[0], name, "last_run.json"), "w"), indent=1)
             reason = ""
             for p, l in res["undecided"].items():
                 reason = (l[0] if l else "")[:160]
